@@ -14,7 +14,6 @@ package rag
 
 import (
 	"fmt"
-	"runtime/debug"
 	"strings"
 	"testing"
 	"time"
@@ -81,11 +80,8 @@ func c20RunSplit(c c20SplitCase) string {
 	return c20Deadline(fmt.Sprintf("SplitText(strategy=%q size=%d overlap=%d)", c.Strategy, c.Size, c.Overlap), func() (msg string) {
 		defer func() {
 			if r := recover(); r != nil {
-				st := string(debug.Stack())
-				if len(st) > 1800 {
-					st = st[:1800]
-				}
-				msg = fmt.Sprintf("panic in SplitText(strategy=%q size=%d overlap=%d) on %s: %v\n%s", c.Strategy, c.Size, c.Overlap, c20ClipQ(s), r, st)
+				st := c20Stack()
+				msg = fmt.Sprintf("panic in SplitText(strategy=%q size=%d overlap=%d) on %s: %v at %s", c.Strategy, c.Size, c.Overlap, c20ClipQ(s), r, st)
 			}
 		}()
 		cfg := Config{ChunkingStrategy: c.Strategy, ChunkSize: c.Size, ChunkOverlap: c.Overlap}
@@ -215,12 +211,19 @@ func TestVerif_C20_split(t *testing.T) {
 		}
 		return
 	}
-	verifkit.RapidSetup(2400, 36000)
+	verifkit.RapidSetup(3000, 160000)
 	gen := c20GenText(true)
 	rapid.Check(t, func(rt *rapid.T) {
 		c := c20SplitCase{Strategy: c20Pick(rt, c20Strategies, "strategy"), AssertSize: true}
 		c.Size, c.Overlap = c20GenSizeOverlap(rt, 600)
 		c.Text = gen.Draw(rt, "text")
+		// code-like text mostly meets a code strategy, markdown-like text a markdown strategy
+		if c.Text.Class == "code" && rapid.IntRange(0, 3).Draw(rt, "match_strategy") != 1 {
+			c.Strategy = c20Pick(rt, []string{"code", "go", "python"}, "code_strategy")
+		}
+		if c.Text.Class == "markdown" && rapid.IntRange(0, 3).Draw(rt, "match_strategy") != 1 {
+			c.Strategy = c20Pick(rt, []string{"markdown", "md"}, "md_strategy")
+		}
 		s := c.Text.String()
 		if c.Overlap > 0 {
 			// keep the total output (chunks x size) of a case below ~4M runes
